@@ -1672,6 +1672,73 @@ fn gen_c07_two_keys(rng: &mut Rng, out: &mut Vec<Case>) {
     out.push(c);
 }
 
+/// A row R that transaction T1 has updated is re-written by a later multi-row UPDATE of T1 that fails on a LATER row (a
+/// UNIQUE violation: `k add 3` walks rows 1, 2, … and runs into the row with key m + 3) — the statement is undone, T1
+/// stays open, R stays in T1's write set because of the earlier UPDATE.  A concurrent T2 updates or deletes R (before
+/// or after the failing statement) and commits first: T1's commit must be refused.  Variants: R rewritten alone or
+/// among others, the earlier UPDATE single- or multi-row, T1 committing first (then T2 is refused), and a control
+/// without the earlier UPDATE (T1 commits).  Updates inside sessions: exact through flag updateKeepsInserterXmin.
+fn gen_rewrite_then_failed_stmt(rng: &mut Rng, out: &mut Vec<Case>) {
+    let m = rng.range(2, 4); // rows 1..m and the blocker m + 3; `k add 3` rewrites rows 1..m-1 and fails on row m
+    let mut setup = "tab=u(k:big*,v:int,w:int)".to_string();
+    for i in 1..=m {
+        setup.push_str(&format!(" row=u:{},{},{}", i, 10 * i, 100 * i));
+    }
+    setup.push_str(&format!(" row=u:{},{},{}", m + 3, 10 * (m + 3), 100 * (m + 3)));
+    let r = rng.range(1, m - 1); // R is one of the rows the failing statement rewrites
+    let control = rng.chance(1, 6);
+    let mut ops: Vec<String> = vec![];
+    if rng.chance(1, 2) {
+        ops.push("s1 begin ; s2 begin".into());
+    } else {
+        ops.push("s2 begin ; s1 begin".into());
+    }
+    // (1) the earlier, successful UPDATE of R
+    if !control {
+        if rng.chance(1, 2) {
+            ops.push(format!("s1 upd u v set {} where w eq {}", 1000 + r, 100 * r));
+        } else {
+            ops.push(format!("s1 upd u v add 1 where w le {}", 100 * rng.range(r, m)));
+        }
+    }
+    let t2 = if rng.chance(1, 2) {
+        format!("s2 upd u v set {} where w eq {}", 2000 + r, 100 * r)
+    } else {
+        format!("s2 del u where w eq {}", 100 * r)
+    };
+    let t2_first = rng.chance(1, 2);
+    if t2_first {
+        ops.push(t2.clone());
+    }
+    // (2) the statement that rewrites R again and fails on a later row
+    ops.push(format!("s1 upd u k add 3 where w le {}", 100 * m));
+    if rng.chance(1, 2) {
+        ops.push("s1 sel u".into());
+    }
+    if !t2_first {
+        ops.push(t2);
+    }
+    if rng.chance(1, 3) {
+        // T1 goes on working elsewhere
+        ops.push(format!("s1 ins u {} 1 {}", 50 + m, 5000 + m));
+    }
+    // (3) (4) the commits
+    if rng.chance(4, 5) {
+        ops.push("s2 commit ; db sel u ; s1 commit ; db sel u".into());
+    } else {
+        ops.push("s1 commit ; db sel u ; s2 commit ; db sel u".into());
+    }
+    let mut extra = vec!["c03", "c04", "failed_stmt", "failed_stmt_partial", "rewrite_then_failed_stmt"];
+    if control {
+        extra.push("rewrite_then_failed_stmt_control");
+    }
+    let mut c = case_of(&setup, &ops, Family::Clean, &extra);
+    if !c.tags.iter().any(|t| t == "nt") {
+        c.tags.push("nt".into());
+    }
+    out.push(c);
+}
+
 /// `concurrent_same_key` on a key K that a ROLLED-BACK transaction inserted before (explicit rollback, dropped session,
 /// failing batch, multi-row INSERT failing on a later row — no VACUUM since): its index entry is still there and the
 /// next inserter takes it over.  Two sessions open at once both INSERT K (either order of begin / insert / commit,
@@ -1816,6 +1883,9 @@ impl Engine for HistEngine {
         }
         for _ in 0..(if quick { 40 } else { 400 }) {
             gen_concurrent_same_row(rng, &mut out);
+        }
+        for _ in 0..(if quick { 80 } else { 800 }) {
+            gen_rewrite_then_failed_stmt(rng, &mut out);
         }
         // (4) database birth
         for _ in 0..(if quick { 12 } else { 60 }) {
